@@ -646,8 +646,16 @@ class Prefix:
             return IdentityPrefix
 
         key = (base, exponent)
-        if key in cls._known:
-            return cls._known[key]
+        known = cls._known.get(key)
+
+        # a name or symbol may only ever refer to one prefix
+        if name and cls._by_name.get(name, known) is not known:
+            raise ValueError(f"A prefix named {name} is already defined")
+        if symbol and cls._by_symbol.get(symbol, known) is not known:
+            raise ValueError(f"A prefix with symbol {symbol} is already defined")
+
+        if known is not None:
+            return known
 
         self = super().__new__(cls)
         self._initialized = False
